@@ -79,6 +79,12 @@ def is_symbolic(x):
     return False
 
 
+def round15(x):
+    """the float rounded to 15 significant digits (what sigfig.round(x, 15) returns); symbolically: the decimal a noisy
+    product stands for"""
+    return float("%.15g" % x)
+
+
 # ------------------------------------------------------------------------------- input domains
 class Dom:
     def make(self, eng, name):
